@@ -1,5 +1,8 @@
 // Command seq_parse decides C09: syslog header parsing is faithful and every message is accounted for. Bounded-exhaustive
 // enumeration of lines through the real syslogparser against the reference parser of DESIGN.md Appendix A.2 (ref.go).
+// main.go: configurations, per-line oracle, the PRI / token-product / length / message groups and the older histories;
+// sweep.go: alphabet sweeps over the role positions of the grammar; runs.go: run, pool-size and sweep histories through one
+// parser; receiver.go: the parsing receiver that owns parser and counters in production.
 package main
 
 import (
@@ -12,8 +15,11 @@ import (
 	"github.com/relex/gotils/logger"
 	"github.com/relex/gotils/promexporter/promreg"
 	"github.com/relex/slog-agent/base"
+	"github.com/relex/slog-agent/base/bconfig"
 	"github.com/relex/slog-agent/defs"
+	"github.com/relex/slog-agent/input/sysloginput"
 	"github.com/relex/slog-agent/input/syslogparser"
+	"github.com/relex/slog-agent/transform/taddfields"
 
 	"slogverif/seq"
 )
@@ -28,7 +34,13 @@ type env struct {
 	schema     base.LogSchema
 	mapping    []string // handed to NewParser (nil = default)
 	mapRef     []string // what the reference expects
+	// composite: the parser is built by sysloginput.Config.NewParser (the observation point named in the property: the
+	// syslog parser wrapped together with the input's extraction transforms), with one extraction that writes a constant
+	// into the foreign field "task"
+	composite bool
 }
+
+const extractedMark = "set-by-extraction"
 
 var (
 	schemaPlain    = []string{"facility", "level", "time", "host", "app", "pid", "source", "extradata", "log"}
@@ -44,16 +56,55 @@ func newEnv(name string, fields []string, mapping, mapRef []string) *env {
 	return e
 }
 
+// the first four entries keep their positions (case ids of the older groups refer to them); 4..7 complete the product
+// {default, log4j, custom, sparse} x {plain, shuffled+extended schema}; 8.. are built through sysloginput.Config.NewParser
 var envs = []*env{
 	newEnv("plain/default", schemaPlain, nil, severityRef),
 	newEnv("plain/log4j", schemaPlain, log4jRef, log4jRef),
 	newEnv("plain/custom", schemaPlain, customRef, customRef),
 	newEnv("shuffled/log4j", schemaShuffled, log4jRef, log4jRef),
+	newEnv("shuffled/default", schemaShuffled, nil, severityRef),
+	newEnv("shuffled/custom", schemaShuffled, customRef, customRef),
+	newEnv("plain/sparse", schemaPlain, sparseRef, sparseRef),
+	newEnv("shuffled/sparse", schemaShuffled, sparseRef, sparseRef),
+	newCompositeEnv("composite/log4j", schemaShuffled, log4jRef),
+	newCompositeEnv("composite/custom", schemaShuffled, customRef),
+	newCompositeEnv("composite/sparse", schemaShuffled, sparseRef),
 }
 
-func setLimits(msgLimit int) {
+const (
+	envComposite       = 8 // composite/log4j
+	envCompositeCustom = 9
+)
+
+func newCompositeEnv(name string, fields []string, mapping []string) *env {
+	e := newEnv(name, fields, mapping, mapping)
+	e.composite = true
+	return e
+}
+
+// The limits the tree ships with, read before anything is scaled; documentedMsgLimit / documentedRecordSlack are what the
+// documentation says about them (DESIGN.md limit table: 1 MiB, record = message + 256).
+var shippedMsgLimit, shippedRecLimit = defs.InputLogMaxMessageBytes, defs.InputLogMaxRecordBytes
+
+const (
+	documentedMsgLimit    = 1 << 20
+	documentedRecordSlack = 256
+)
+
+// setLimits scales both limits; msgLimit == limitsAsShipped restores the values the tree ships with and returns the
+// DOCUMENTED message limit, which is what the oracle then uses.
+const limitsAsShipped = -1
+
+func setLimits(msgLimit int) int {
+	if msgLimit == limitsAsShipped {
+		defs.InputLogMaxMessageBytes = shippedMsgLimit
+		defs.InputLogMaxRecordBytes = shippedRecLimit
+		return documentedMsgLimit
+	}
 	defs.InputLogMaxMessageBytes = msgLimit
-	defs.InputLogMaxRecordBytes = msgLimit + 256
+	defs.InputLogMaxRecordBytes = msgLimit + documentedRecordSlack
+	return msgLimit
 }
 
 // ---------------------------------------------------------------------------------------------------------------------
@@ -71,11 +122,27 @@ func newInstance(e *env) *instance {
 	mf := promreg.NewMetricFactory("c09_", nil, nil)
 	counter := base.NewLogInputCounter(mf)
 	alloc := base.NewLogAllocator(e.schema, 1)
-	parser, err := syslogparser.NewParser(logger.Root(), alloc, e.schema, e.mapping, counter)
+	parser, err := e.newParser(alloc, counter)
 	if err != nil {
 		panic(err)
 	}
 	return &instance{e: e, alloc: alloc, parser: parser, counter: counter, mf: mf}
+}
+
+func (e *env) inputConfig() *sysloginput.Config {
+	return &sysloginput.Config{
+		LevelMapping: e.mapping,
+		Extractions: []bconfig.LogTransformConfigHolder{
+			{Location: "harness", Value: &taddfields.Config{Fields: map[string]string{"task": extractedMark}}},
+		},
+	}
+}
+
+func (e *env) newParser(alloc *base.LogAllocator, counter *base.LogInputCounterSet) (base.LogParser, error) {
+	if e.composite {
+		return e.inputConfig().NewParser(logger.Root(), alloc, e.schema, counter)
+	}
+	return syslogparser.NewParser(logger.Root(), alloc, e.schema, e.mapping, counter)
 }
 
 type metrics struct {
@@ -84,14 +151,7 @@ type metrics struct {
 
 func (in *instance) read() metrics {
 	in.counter.UpdateMetrics()
-	return metrics{
-		passed:        in.mf.AddOrGetCounter("passed_records_total", "", nil, nil).Get(),
-		passedBytes:   in.mf.AddOrGetCounter("passed_record_bytes_total", "", nil, nil).Get(),
-		dropped:       in.mf.AddOrGetCounter("dropped_records_total", "", nil, nil).Get(),
-		droppedBytes:  in.mf.AddOrGetCounter("dropped_record_bytes_total", "", nil, nil).Get(),
-		overflow:      in.mf.AddOrGetLazyCounterVec("labelled_records_total", "", []string{"label"}, nil).WithLabelValues("overflow").Get(),
-		overflowBytes: in.mf.AddOrGetLazyCounterVec("labelled_record_bytes_total", "", []string{"label"}, nil).WithLabelValues("overflow").Get(),
-	}
+	return readMetrics(in.mf)
 }
 
 var recvTime = time.Unix(1600000000, 123456789)
@@ -121,7 +181,9 @@ func show(s string) string {
 // checkRecord compares one returned record with the reference reading of the line.
 // headerOutsideRFC reports whether the header part of the line (everything in front of the message) holds invalid UTF-8 or
 // is by itself longer than what a record may be once its message is cut to the message limit.
-func headerOutsideRFC(line string, ref refRecord) bool {
+// The limits are the documented ones (msgLimit as configured by the case, record limit = message limit + 256), not the
+// variables of the code under test.
+func headerOutsideRFC(line string, ref refRecord, msgLimit int) bool {
 	headerLen := len(line) - len(ref.msg)
 	if headerLen < 0 || headerLen > len(line) {
 		return false
@@ -130,10 +192,10 @@ func headerOutsideRFC(line string, ref refRecord) bool {
 		return true
 	}
 	msgLen := len(ref.msg)
-	if msgLen > defs.InputLogMaxMessageBytes {
-		msgLen = defs.InputLogMaxMessageBytes
+	if msgLen > msgLimit {
+		msgLen = msgLimit
 	}
-	return headerLen+msgLen > defs.InputLogMaxRecordBytes
+	return headerLen+msgLen > msgLimit+documentedRecordSlack
 }
 
 func checkRecord(e *env, line string, ref refRecord, rec *base.LogRecord, msgLimit int) (string, string) {
@@ -146,11 +208,14 @@ func checkRecord(e *env, line string, ref refRecord, rec *base.LogRecord, msgLim
 	case clsOther:
 		return "", ""
 	case clsNoMsg:
+		if rec == nil && headerOutsideRFC(line, ref, msgLimit) {
+			return "", "" // as below: a header with invalid UTF-8 or longer than a record may be: either answer
+		}
 		if rec == nil {
 			return "faithful:no-msg-line-dropped", fmt.Sprintf("line %s is well-formed RFC 5424 without the optional MSG part (HEADER SP STRUCTURED-DATA [SP MSG]) but was dropped", show(line))
 		}
 	case clsWellFormed:
-		if rec == nil && headerOutsideRFC(line, ref) {
+		if rec == nil && headerOutsideRFC(line, ref, msgLimit) {
 			// RFC 5424 restricts header fields to printable US-ASCII and the record to the configured size: a header holding
 			// invalid UTF-8, or a header that alone exceeds the record limit, is not a well-formed line in the sense of the
 			// statement. Either answer is accepted for it: parsed faithfully (checked below) or rejected and counted (the
@@ -176,13 +241,21 @@ func checkRecord(e *env, line string, ref refRecord, rec *base.LogRecord, msgLim
 			return "faithful:" + name, fmt.Sprintf("field %s is %s, the line has %s; line %s", name, show(got), show(ref.tokens[i]), show(line))
 		}
 	}
-	if key, why := checkMessage(ref.msg, get("log"), msgLimit, len(line), msgLimit+256); key != "" {
+	if key, why := checkMessage(ref.msg, get("log"), msgLimit, len(line), msgLimit+documentedRecordSlack); key != "" {
 		return key, fmt.Sprintf("%s: message limit %d, record limit %d, line length %d, message length %d -> %d; original message %s, got %s (valid UTF-8: %v -> %v)",
-			why, msgLimit, msgLimit+256, len(line), len(ref.msg), len(get("log")), show(ref.msg), show(get("log")), utf8.ValidString(ref.msg), utf8.ValidString(get("log")))
+			why, msgLimit, msgLimit+documentedRecordSlack, len(line), len(ref.msg), len(get("log")), show(ref.msg), show(get("log")), utf8.ValidString(ref.msg), utf8.ValidString(get("log")))
 	}
 	for i, name := range e.fieldNames {
 		switch name {
 		case "facility", "level", "time", "host", "app", "pid", "source", "extradata", "log":
+		case "task":
+			if e.composite {
+				if rec.Fields[i] != extractedMark {
+					return "composite:extraction-not-applied", fmt.Sprintf("the parser was built by sysloginput.Config.NewParser with an extraction that sets field task to %q, but task is %s; line %s", extractedMark, show(rec.Fields[i]), show(line))
+				}
+				continue
+			}
+			fallthrough
 		default:
 			if rec.Fields[i] != "" {
 				return "faithful:foreign-field-set", fmt.Sprintf("field %s, which the parser does not own, is %s; line %s", name, show(rec.Fields[i]), show(line))
@@ -194,7 +267,7 @@ func checkRecord(e *env, line string, ref refRecord, rec *base.LogRecord, msgLim
 
 // checkLine: fresh parser, one line, all oracles.
 func checkLine(e *env, line string, msgLimit int, genTokens *[6]string, genMsg *string) (string, string) {
-	setLimits(msgLimit)
+	msgLimit = setLimits(msgLimit)
 	ref := refParse(line)
 	if genTokens != nil && ref.class == clsWellFormed && (ref.tokens != *genTokens || ref.msg != *genMsg) {
 		return "harness:reference-disagrees-with-generator", fmt.Sprintf("line %s: reference %v / %s", show(line), ref.tokens, show(ref.msg))
@@ -216,7 +289,7 @@ func checkLine(e *env, line string, msgLimit int, genTokens *[6]string, genMsg *
 		return key, msg
 	}
 	// overflow label (a line rejected because its header is outside RFC 5424 / the record limit is only accounted as dropped)
-	if ref.class == clsWellFormed && !(rec == nil && headerOutsideRFC(line, ref)) {
+	if ref.class == clsWellFormed && !(rec == nil && headerOutsideRFC(line, ref, msgLimit)) {
 		wantOv := uint64(0)
 		if len(ref.msg) > msgLimit {
 			wantOv = 1
@@ -250,7 +323,9 @@ func buildLine(first string, tok [6]string, msg string) string {
 	return sb.String()
 }
 
-var typicalTokens = [6]string{"2019-08-15T15:50:46.866915+03:00", "web-1.example.com", "my-app", "12345", "ID47", `[ex@32473_iut="3"]`}
+// the structured data has two elements and an escaped closing bracket inside a value (RFC 5424 6.3: SD-ELEMENTs follow
+// each other without a separator; '"', '\\' and ']' are escaped inside PARAM-VALUE); '_' stands where RFC 5424 has a space
+var typicalTokens = [6]string{"2019-08-15T15:50:46.866915+03:00", "web-1.example.com", "my-app", "12345", "ID47", `[ex@32473_iut="3"_q="a\]b"][pri@32473_class="high"]`}
 var nilTokens = [6]string{"-", "-", "-", "-", "-", "-"}
 
 // token menu; %c is replaced by a letter specific to the position so that swapped fields are noticed
@@ -297,6 +372,10 @@ var kinds = []kind{
 	{"bad-surrogate", 3, []string{"\xed\xa0\x80"}},
 	{"bad-overlong", 2, []string{"\xc0\x80"}},
 	{"bad-mixed", 0, []string{"é", "\xff", "a", "€", "\x80"}},
+	// appended (indices above are referred to elsewhere): bytes and characters that mean something to line-oriented software
+	{"spaces", 1, []string{" "}},
+	{"controls", 1, []string{"\r", "\x00", "\x7f", "\x1b", "\t", "\n"}},
+	{"bom-and-separators", 0, []string{"\ufeff", "\u2028", "\u00a0", "\u0085"}},
 }
 
 func asciiPad(n, salt int) string {
@@ -509,9 +588,10 @@ func enumerate(ctx *seq.Ctx) {
 		}
 	}
 
-	// ---- G6: the shipped limits (1 MiB / 1 MiB + 256)
+	// ---- G6: the limits as shipped (the variables of defs are left as the tree initialises them; the oracle uses the
+	// documented values 1 MiB / 1 MiB + 256)
 	{
-		L := 1 << 20
+		L := documentedMsgLimit
 		ctx.Group("message/default-1MiB")
 		for _, kd := range []kind{{"ascii", 1, []string{"x"}}, kinds[0], kinds[1], kinds[2], kinds[4]} {
 			for k := 0; k < 4; k++ {
@@ -527,11 +607,18 @@ func enumerate(ctx *seq.Ctx) {
 					msg := buildMessage(kd, k, 0, total)
 					tok := [6]string{"2020-01-02T03:04:05Z", "h", "app", "77", "mid", "-"}
 					line := buildLine("<14>1", tok, msg)
-					run(id, envs[1], line, L, &tok, &msg)
+					run(id, envs[1], line, limitsAsShipped, &tok, &msg)
 				}
 			}
 		}
 	}
+
+	// ---- alphabet dimensions (sweep.go), run / pool / sweep histories (runs.go), the receiver that owns the counters (receiver.go)
+	for _, L := range limits {
+		enumerateSweeps(ctx, run, L)
+	}
+	enumerateRuns(ctx)
+	enumerateReceiver(ctx)
 
 	// ---- G8: all sequences of length <= 3 over the release menu on ONE parser, records released after each line
 	ctx.Group("release-history")
@@ -584,7 +671,7 @@ func checkReleaseSequence(seqIdx []int) (string, string) {
 		line := menu[idx]
 		rec := in.parseOne(line)
 		ref := refParse(line)
-		if key, msg := checkRecord(e, line, ref, rec, L); key != "" && !strings.HasPrefix(key, "truncate:") {
+		if key, msg := checkRecord(e, line, ref, rec, L); key != "" {
 			return "release-history:" + key, fmt.Sprintf("line %d of the sequence %v on one parser with records released in between: %s", n+1, seqIdx, msg)
 		}
 		if rec != nil {
@@ -674,9 +761,6 @@ func checkHistory(variant int) (string, string) {
 	}
 	for _, k := range keep {
 		if key, msg := checkRecord(e, k.line, refParse(k.line), k.rec, L); key != "" {
-			if strings.HasPrefix(key, "truncate:") {
-				continue // decided by the message groups on fresh state
-			}
 			return "history:" + key, "after the whole history: " + msg
 		}
 	}
@@ -692,18 +776,26 @@ func main() {
 	seq.Main(&seq.Config{
 		Property: "C09",
 		Level:    "exploration",
-		Rule: "bounded-exhaustive enumeration of lines through syslogparser.NewParser(...).Parse with limits scaled to message 64 / record 320 (thorough also 67/323 and 5/261, both tiers also the shipped 1 MiB): " +
-			"ALL PRI 0..191 x {default, log4j, custom} level mappings x 2 schemas x 2 token sets; a menu of 36 out-of-range / odd first tokens; every combination of an 8 (quick) / 12 (thorough) entry menu at the six header tokens " +
-			"(NIL, typical, 1 char, UTF-8, 200 chars, PRI look-alike, invalid UTF-8, control characters; thorough adds 1100 chars, a single 2-byte character, punctuation, a token starting with the NIL character); lines of 20..44 bytes with and without the MSG part; message bodies of every length 0..L+12 (ASCII) and L-6..L+9 for " +
-			"2-/3-/4-byte characters and 7 kinds of invalid bytes at every alignment (0-4 leading and 0/1/3 trailing ASCII bytes), each with the total line length at the shortest header and at record limit -2..+2 and +300; " +
-			"6 histories of 196 mixed lines through one parser; oracle: reference parser (split on the first seven spaces), own facility/level tables, truncation rules, counters read after UpdateMetrics; " +
-			"non-trivial = the reference classifies the line as well-formed, MSG-less or PRI-too-large (i.e. it gets past the cheap rejections)",
+		Rule: "bounded-exhaustive enumeration of lines through syslogparser.NewParser(...).Parse and through sysloginput.Config.NewParser(...).Parse (composite parser with one extraction) with limits scaled to message 64 / record 320 (thorough also 67/323 and 5/261, both tiers also the limits exactly as the tree ships them, judged against the documented 1 MiB / +256): " +
+			"ALL PRI 0..191 x {default, log4j, custom, sparse (empty and repeated names)} level mappings x 2 schemas (+ 3 composite configurations) x 2 token sets; a menu of 36 out-of-range / odd first tokens; every combination of an 8 (quick) / 12 (thorough) entry menu at the six header tokens " +
+			"(NIL, typical incl. two SD elements with an escaped bracket, 1 char, UTF-8, 200 chars, PRI look-alike, invalid UTF-8, control characters; thorough adds 1100 chars, a single 2-byte character, punctuation, a token starting with the NIL character); lines of 20..44 bytes with and without the MSG part; message bodies of every length 0..L+12 (ASCII) and L-6..L+9 for " +
+			"2-/3-/4-byte characters, 7 kinds of invalid bytes, spaces, control bytes (CR NUL DEL ESC TAB LF) and BOM / separators at every alignment (0-4 leading and 0/1/3 trailing ASCII bytes), each with the total line length at the shortest header and at record limit -2..+2 and +300; " +
+			"ALPHABET SWEEPS: all 256 byte values, 167 special code points (all of Latin-1 above ASCII, every Unicode white-space / invisible format character, BOM, non-characters, ends of the UTF-8 length classes) and a menu of 54 multi-byte pieces (CR LF, NUL, escape sequences, brackets, a second header, printf verbs, partial BOMs ...) in every role of the message (leading, trailing, inner, sole, doubled, exactly at / one over the limit, as the last kept and the first dropped thing, straddling the limit by every number of bytes; line at natural length and exactly at the record limit), " +
+			"in every role of each of the six header tokens (first / last / middle / sole / prepended / appended), all 256 bytes in 9 roles of the first token; all structured-data tokens of 1..3 elements over {[a], [b@1_k=\"v\"], [c_k=\"\\]\"], x, ], [, -} x 8 message beginnings and without MSG; each header position alone over an extended menu of 35 tokens; MSG-less lines around the record limit; rejected / over-long lines with a character across byte 200 (excerpt quoted in warnings); " +
+			"HISTORIES through ONE parser: 24 kinds of line (every way of not being well-formed, over-long messages, good lines) in runs of 1,2,3,9..13,31..33,100,255..257,1000,4097 (thorough to 300000), pure / framed by / interleaved with good lines, and all ordered pairs of kinds in blocks of 9/10/11, records kept, released at once or 1-2 lines late, counters read after every line or once; " +
+			"all ordered pairs of line lengths 2^k-1, 2^k, 2^k+1 (k=5..12) with the pooling threshold as shipped and forced low; whole alphabet sweeps through one parser; 6 histories of 196 mixed lines; all release sequences of length <= 3 over a 14-line menu; " +
+			"RECEIVER: every sequence of <= 4 (thorough 6) steps over {good line, over-long message, 3 rejected kinds, Flush} through bsupport.NewLogParsingReceiver (parser from sysloginput.Config.NewParser) x {one connection, two interleaved, a rejected-only connection closed before} x {intermediate buffer as shipped, 2 records, 150 bytes}, input_ metrics read without the harness ever calling UpdateMetrics; " +
+			"oracle: reference parser (split on the first seven spaces), own facility/level tables, exact cut (longest prefix that fits and ends at a character boundary) for valid UTF-8, counters read after UpdateMetrics / after Close; " +
+			"non-trivial = the reference classifies the line as well-formed, MSG-less or PRI-too-large (i.e. it gets past the cheap rejections); history and receiver cases are all non-trivial",
 		Assumptions: []string{
 			"lines shorter than 32 bytes, PRI spellings other than 1-3 digits without leading zero, versions other than 1 and empty header tokens are outside the faithfulness claim: they may be rejected or parsed, but are counted once and must not panic",
 			"a decimal PRI above 191 has no facility and must be rejected",
-			"a cut message may be any prefix of the original that is not longer than the limit, valid UTF-8 whenever the original is, and shorter than limit-3 only if nothing but non-ASCII bytes were dropped (config_sample.yml: 'non-ASCII bytes at the end are stripped')",
-			"when the original message is not valid UTF-8, bytes >= 0x80 may be missing from a cut message, and from an uncut one if the line is at least InputLogMaxRecordBytes long (the receiver may have cut it)",
+			"a header that holds invalid UTF-8, or that alone is longer than a record may be (message limit + 256, the documented relation), is not well-formed in the sense of the statement: parsed faithfully or rejected and counted, either is accepted (also for MSG-less lines)",
+			"an over-long message that is valid UTF-8 is cut to exactly the longest prefix that fits into the limit and ends at a character boundary (statement: 'cut to the configured limit at a valid UTF-8 boundary'; DESIGN A.2); the comment 'non-ASCII bytes at the end are stripped' in config_sample.yml is read as the bytes of the one character the limit falls into",
+			"when the original message is not valid UTF-8, bytes >= 0x80 may be missing from a cut message (ASCII bytes in front of the limit may not), and from an uncut one if the line is at least InputLogMaxRecordBytes long (the receiver may have cut it)",
+			"the documentation does not say WHEN a connection's counters become visible: the receiver part only requires that nothing is over-counted at any time and that everything a connection handed in is published once it was flushed and closed",
 			"the receive timestamp and the Unescaped mark of the record are not part of the statement and are not checked",
+			"the shipped limits are judged against the documented values (1 MiB message, record = message + 256), not against the variables of the tree",
 		},
 		Enumerate:        enumerate,
 		QuickDeadline:    4 * time.Minute,
